@@ -83,6 +83,9 @@ func subset(a, b []string) bool {
 
 type validatorSpec struct {
 	pkg, name string
+	// syn: observed condition -> the spelling used in the tables, for conditions that are
+	// equivalent in this validator
+	syn map[string]string
 	// success: the exact guard sets of the success returns (any order).
 	success [][]string
 	// failures: for each entry some failure return must have a guard set that contains it.
@@ -104,7 +107,7 @@ func runC05(c *Ctx) {
 	r.Rule("C05.3", "typeswitch-coverage: the annotation validator handles the static type of every call site", 4)
 	r.Rule("C05.4", "nil-elements: null entries of deviceNodes, hooks and mounts are rejected before use", 3)
 	r.Rule("C05.5", "fields: isEmpty considers every field of specs.ContainerEdits", 6)
-	r.Rule("C05.6", "tables: device types, permission runes", 2)
+	r.Rule("C05.6", "tables: device types, permission runes", 1)
 
 	// ---- C05.1
 	n := 0
@@ -146,7 +149,7 @@ func runC05(c *Ctx) {
 			success: [][]string{{"nonempty($0.Mount.ContainerPath)", "nonempty($0.Mount.HostPath)"}},
 			why:     "mounts need non-empty host and container paths"},
 		{pkg: "cdi", name: "(*DeviceNode).Validate",
-			success:  [][]string{{"loopdone($0.DeviceNode.Permissions)", "nonempty($0.DeviceNode.Path)", "present(make:map[$0.DeviceNode.Type])"}},
+			success:  [][]string{{"loopdone($0.DeviceNode.Permissions)", "nonempty($0.DeviceNode.Path)", `$0.DeviceNode.Type in {"","b","c","p","u"}`}},
 			failures: [][]string{{"loop($0.DeviceNode.Permissions)", "$0.DeviceNode.Permissions[*] != 109", "$0.DeviceNode.Permissions[*] != 114", "$0.DeviceNode.Permissions[*] != 119"}},
 			why:      "device nodes need a path, a type in the table and permissions within rwm"},
 		{pkg: "cdi", name: "(*Hook).Validate",
@@ -179,6 +182,9 @@ func runC05(c *Ctx) {
 			},
 			why: "devices need a valid name, valid annotations and non-empty valid edits"},
 		{pkg: "cdi", name: "(*Spec).validate",
+			// the map gets exactly one entry per device on every path that completes the loop
+			// (rule devices-map), so "no device" may be tested on the list or on the map
+			syn: map[string]string{"nonempty($0.Spec.Devices)": "nonempty(make:map)", "empty($0.Spec.Devices)": "empty(make:map)"},
 			success: [][]string{{"loopdone($0.Spec.Devices)", "nil(err:cdi.(*ContainerEdits).Validate)", "nil(err:parser.ValidateClassName)", "nil(err:parser.ValidateVendorName)", "nil(err:specs.ValidateVersion)", "nil(err:validation.ValidateSpecAnnotations)", "nonempty(make:map)"}},
 			failures: [][]string{
 				{"loop($0.Spec.Devices)", "nonnil(err:cdi.newDevice)"},
@@ -220,6 +226,19 @@ func c05CheckValidator(c *Ctx, vs validatorSpec) {
 		return
 	}
 	succ, fail := c.returnsByOutcome(fn)
+	if len(vs.syn) > 0 {
+		// equivalent spellings of one condition (justified per validator) count as the same
+		for _, lst := range [][]retInfo{succ, fail} {
+			for i := range lst {
+				for k, g := range lst[i].guards {
+					if to, ok := vs.syn[g]; ok {
+						lst[i].guards[k] = to
+					}
+				}
+				sort.Strings(lst[i].guards)
+			}
+		}
+	}
 	// success sets
 	want := map[string]bool{}
 	for _, w := range vs.success {
@@ -631,26 +650,23 @@ func c05Tables(c *Ctx) {
 	if fn == nil {
 		return
 	}
-	var keys []string
-	ir.Instrs(fn, func(in ssa.Instruction) {
-		if mm, ok := in.(*ssa.MakeMap); ok {
-			for _, k := range c.U.MapLiteralKeys(mm) {
-				if s, ok := ir.ConstString(k); ok {
-					keys = append(keys, s)
-				}
+	// the accepted types, as decoded from the success condition (a literal table consulted with
+	// the node's type, or the equivalent chain of comparisons / switch)
+	succ, _ := c.returnsByOutcome(fn)
+	want := `$0.DeviceNode.Type in {"","b","c","p","u"}`
+	ok := len(succ) > 0
+	var found []string
+	for _, sr := range succ {
+		has := false
+		for _, g := range sr.guards {
+			if strings.HasPrefix(g, "$0.DeviceNode.Type in ") {
+				found = append(found, g)
+				has = g == want
 			}
 		}
-	})
-	sort.Strings(keys)
-	r.Check("C05.6", "device-types", sameSet(keys, []string{"", "b", "c", "p", "u"}), c.U.Pos(fn.Pos()), fmt.Sprintf("device type table %q = {\"\",b,c,u,p}", keys))
-	// the map consulted is that table, keyed by the node's type
-	ok := false
-	ir.Instrs(fn, func(in ssa.Instruction) {
-		if lk, isLk := in.(*ssa.Lookup); isLk && lk.CommaOk {
-			if _, isMake := lk.X.(*ssa.MakeMap); isMake && normGuards(fn, []string{c.valueDesc(lk.Index)})[0] == "$0.DeviceNode.Type" {
-				ok = true
-			}
+		if !has {
+			ok = false
 		}
-	})
-	r.Check("C05.6", "device-types-lookup", ok, c.U.Pos(fn.Pos()), "the node's type is looked up in that table")
+	}
+	r.Check("C05.6", "device-types", ok, c.U.Pos(fn.Pos()), fmt.Sprintf("device types accepted: %v; expected %s", found, want))
 }
